@@ -17,6 +17,8 @@ import (
 
 	"golang.org/x/crypto/ocsp"
 
+	"github.com/gr33nbl00d/caddy-revocation-validator/config"
+
 	"verif/harness/lab/crlgen"
 	"verif/harness/lab/gen"
 	"verif/harness/lab/l2"
@@ -39,11 +41,13 @@ type caseSpec struct {
 	Second   bool   // a second unrelated CRL is loaded too
 	OCSP     string // none, good, unavailable
 	OtherCDP bool   // probe certificates carry a CDP of another (healthy, unrelated) CRL
+	Chain    string // leaf-int-root | leaf-int | leaf-only | two-chains
+	Target2  bool   // the CRL under test is configured after the unrelated one
 	Seed     int64
 }
 
 func (c caseSpec) desc() string {
-	return fmt.Sprintf("mode=%q src=%s enc=%s n=%d width=%d ext=%d store=%s second=%v ocsp=%s othercdp=%v", c.Mode, c.Source, c.Enc, c.N, c.Width, c.ExtMode, c.Storage, c.Second, c.OCSP, c.OtherCDP)
+	return fmt.Sprintf("mode=%q src=%s enc=%s n=%d width=%d ext=%d store=%s second=%v ocsp=%s othercdp=%v chain=%s target-second=%v", c.Mode, c.Source, c.Enc, c.N, c.Width, c.ExtMode, c.Storage, c.Second, c.OCSP, c.OtherCDP, c.Chain, c.Target2)
 }
 
 func encode(der []byte, enc string) []byte {
@@ -101,6 +105,8 @@ func main() {
 			c.Width = []int{0, 0, 1, 2, 3, 8, 16, 19, 20}[rng.Intn(9)]
 		}
 		c.Second = i%3 == 0
+		c.Chain = []string{"leaf-int-root", "leaf-int-root", "leaf-int", "leaf-only", "two-chains"}[i%5]
+		c.Target2 = c.Second && i%2 == 0
 		c.OtherCDP = (c.Source == "crl_files" || c.Source == "crl_urls") && i%4 == 1
 		if c.N > 1000 && c.ExtMode == 3 {
 			c.ExtMode = 2 // 3 KiB fillers x 5000 entries = 15 MB per case is thorough-only
@@ -251,7 +257,11 @@ func runCase(run *report.Run, w *world.World, c caseSpec, scratch, intPEM, other
 		cfg.TrustedSignatureCertsFiles = append(cfg.TrustedSignatureCertsFiles, otherPEM)
 	}
 	if c.Second {
-		cfg.CRLFiles = append(cfg.CRLFiles, otherFile)
+		if c.Target2 {
+			cfg.CRLFiles = append([]string{otherFile}, cfg.CRLFiles...)
+		} else {
+			cfg.CRLFiles = append(cfg.CRLFiles, otherFile)
+		}
 		cfg.TrustedSignatureCertsFiles = append(cfg.TrustedSignatureCertsFiles, otherPEM)
 	}
 	var aia []string
@@ -261,7 +271,7 @@ func runCase(run *report.Run, w *world.World, c caseSpec, scratch, intPEM, other
 	case "unavailable":
 		aia = []string{w.OCSP.URL("/unavail")}
 	}
-	v, err := sut.Provision(sut.Config{Mode: c.Mode, CRL: cfg})
+	v, err := sut.Provision(sut.Config{Mode: c.Mode, CRL: cfg, OCSP: &config.OCSPConfig{TrustedResponderCertsFiles: []string{intPEM}}})
 	rp := func(extra map[string]any) *report.Replay {
 		m := map[string]any{"case": c, "desc": c.desc()}
 		for k, x := range extra {
@@ -295,9 +305,21 @@ func runCase(run *report.Run, w *world.World, c caseSpec, scratch, intPEM, other
 	if c.N > 1000 && len(pos) > 12 {
 		pos = pos[:12]
 	}
+	// the OCSP side needs the issuer certificate: with a chain that lacks it, it must be configured
+	shape := func(chain []*x509.Certificate) [][]*x509.Certificate {
+		switch c.Chain {
+		case "leaf-int":
+			return [][]*x509.Certificate{chain[:2]}
+		case "leaf-only":
+			return [][]*x509.Certificate{chain[:1]}
+		case "two-chains":
+			return [][]*x509.Certificate{chain, {chain[0], chain[1]}}
+		}
+		return [][]*x509.Certificate{chain}
+	}
 	verify := func(serial *big.Int) error {
 		chain := w.Leaf(serial, cdp, aia)
-		return v.Verify(chain)
+		return v.Verify(shape(chain)...)
 	}
 	// an unlisted serial for the in-force poll / neighbour
 	unlisted := func(near *big.Int) *big.Int {
